@@ -128,6 +128,7 @@ def run_chunk(jobs, path, atomics):
     sched_all = open(path + ".sched", "w")
     todo = list(jobs)
     incidents = []
+    finished_ok = 0
     while todo:
         with open(inp, "w") as f:
             for j in todo:
@@ -157,8 +158,9 @@ def run_chunk(jobs, path, atomics):
                 dead = todo[done]
                 kind = "hang" if rc == 3 else "abort"
                 incidents.append((dead["id"], kind, msg[-300:]))
-                if len(incidents) > 20 and len(incidents) > done:
-                    raise ToolError("the harness dies on (almost) every execution: %s" % msg[-500:])
+                finished_ok += done
+                if len(incidents) >= 10 and finished_ok == 0:
+                    raise ToolError("the harness dies on every execution from the start: %s" % msg[-500:])
                 out_all.write(json.dumps({"e": "begin", "id": dead["id"], "x": -1}) + "\n")
                 out_all.write(json.dumps({"e": "crash", "kind": kind, "t": -1}) + "\n")
                 out_all.write(json.dumps({"e": "end", "id": dead["id"], "x": -1, "overrun": False}) + "\n")
